@@ -14,6 +14,7 @@ import (
 	"github.com/postalsys/muti-metroo/internal/protocol"
 	"github.com/postalsys/muti-metroo/internal/recovery"
 	"github.com/postalsys/muti-metroo/internal/transport"
+	"github.com/postalsys/muti-metroo/internal/verifhook"
 )
 
 // PeerInfo contains information about a configured peer.
@@ -222,6 +223,7 @@ func (m *Manager) registerConnection(conn *Connection) {
 
 // handleDisconnect is called when a connection is closed.
 func (m *Manager) handleDisconnect(conn *Connection, err error) {
+	defer verifhook.At("peer.Manager.handleDisconnect:done")
 	m.mu.Lock()
 	// Remove from peers map if this is still the active connection
 	existing, ok := m.peers[conn.RemoteID]
